@@ -113,13 +113,14 @@ def run_tlc(module, cfg=None, workers=1, env=None, timeout=3600, metadir=None, e
 # Context of one check run
 # ----------------------------------------------------------------------------------------
 class Ctx:
-    def __init__(self, pid, tier, seed, level):
+    def __init__(self, pid, tier, seed, level, replaying=False):
         self.pid = pid
         self.tier = tier
         self.seed = seed
         self.level = level
         self.t0 = time.time()
-        self.rundir = os.path.join(VERIF, "run", pid)
+        # a replay must not wipe the run directory that holds the replay file it was given
+        self.rundir = os.path.join(VERIF, "run", pid + ("-replay" if replaying else ""))
         shutil.rmtree(self.rundir, ignore_errors=True)
         os.makedirs(os.path.join(self.rundir, "replay"), exist_ok=True)
         self.states = 0
